@@ -9,17 +9,21 @@ it starts, shows no observation while it is down, restarts with stage 0 at exact
 time and runs its stages in order; no message is handled after passing a gate of a module that
 was down at that instant; nothing of a module runs after a panic of one of its callbacks; the
 error list of `run()` is exactly the multiset of uncaught callback panics and joined task panics;
-the module context is free after the run.  Three kinds of lines exist for this checker only (the
-model does not produce them; they are removed before the comparison): `spw` (a task is spawned,
-with `tokio::spawn` or `spawn_local`) — every task that resumes must have been spawned in the
+the module context is free after the run.  Some kinds of lines exist for this checker only (the
+model does not produce them; they are removed before the comparison): `spw` / `spm` (a task is
+spawned, with `tokio::spawn` or `spawn_local`; `spm`: its handle is given to `current().join`) and
+`trs n` (task number n resumes) — every task that resumes must have been spawned in the
 current incarnation of its module (`task-of-cancelled-incarnation`: a shutdown cancels both kinds)
 and, in scripts without panics, resumes exactly at its deadline (`timer-not-at-deadline`); `pes` /
 `pee` (`event_start` / `event_end` of a pass-through processing element) — a module that is down
 or has panicked gets no event bracket either (`inert-while-down`, `ran-after-panic`).
 
 Cases on which model and implementation agree completely are finally judged against C13 AS
-STATED; the two recorded deviations of the code are reported as tagged rejects (`tag=F-C13b`,
-`tag=F-C13c`, see `knownDeviation`), which bin/check turns into KNOWN-FINDING lines.
+STATED; the two recorded deviations of the code are reported as `kind=deviation` with a tag
+(`tag=F-C13b`, `tag=F-C13c`, see `knownDeviation`), which bin/check turns into KNOWN-FINDING lines.
+They have a kind of their own because bin/check shrinks a failure by deleting lines while the
+verdict keeps its KIND: were they `kind=reject`, an untagged reject in a script that also contains
+a recorded deviation would shrink into the deviation and be taken for known.
 -/
 import Desverif.Model.Net
 import Driver.Common
@@ -50,10 +54,12 @@ def parseAction (sc : Script) : List String → Option Action
   | "spawn" :: tag :: sleep :: flags =>
     match tag.toNat?, sleep.toNat? with
     | some tag, some sleep =>
-      if flags == [] then some (.spawn tag (max sleep 1) false false)
-      else if flags == ["join"] then some (.spawn tag (max sleep 1) true false)
-      else if flags == ["local"] then some (.spawn tag (max sleep 1) false true)
-      else if flags == ["join", "local"] then some (.spawn tag (max sleep 1) true true)
+      if flags == [] then some (.spawn tag (max sleep 1) false false false)
+      else if flags == ["join"] then some (.spawn tag (max sleep 1) true false false)
+      else if flags == ["must"] then some (.spawn tag (max sleep 1) false false true)
+      else if flags == ["local"] then some (.spawn tag (max sleep 1) false true false)
+      else if flags == ["join", "local"] then some (.spawn tag (max sleep 1) true true false)
+      else if flags == ["must", "local"] then some (.spawn tag (max sleep 1) false true true)
       else none
     | _, _ => none
   | ["shutdown"] => some .shutdown
@@ -136,13 +142,13 @@ def configOf (sc : Script) : Config :=
 def kindOf : String → Option OKind
   | "msg" => some .msg | "start" => some .start | "end" => some .end_ | "reset" => some .reset
   | "task" => some .task | "snd" => some .snd | "sch" => some .sch | "log" => some .log
-  | "dwn" => some .dwn | "pan" => some .pan | "spw" => some .spw | "pes" => some .pes | "pee" => some .pee
+  | "dwn" => some .dwn | "pan" => some .pan | "spw" => some .spw | "spm" => some .spm | "trs" => some .trs | "pes" => some .pes | "pee" => some .pee
   | _ => none
 
 def kindName : OKind → String
   | .msg => "msg" | .start => "start" | .end_ => "end" | .reset => "reset" | .task => "task"
   | .snd => "snd" | .sch => "sch" | .log => "log" | .dwn => "dwn" | .pan => "pan"
-  | .spw => "spw" | .pes => "pes" | .pee => "pee"
+  | .spw => "spw" | .spm => "spm" | .trs => "trs" | .pes => "pes" | .pee => "pee"
 
 def optNat (s : String) : Option (Option Nat) :=
   if s == "-" then some none else s.toNat?.map some
@@ -176,6 +182,8 @@ def showErr (sc : Script) (e : ErrKind × Nat) : String :=
   match e.1 with
   | .panic => s!"panic:{m}"
   | .join => s!"join:{m}"
+  | .unfinished => s!"unfinished:{m}"
+  | .tokio => s!"tokio:{m}"
 
 /-- the `res` line the model predicts -/
 def resOf (sc : Script) (errs : List (ErrKind × Nat)) : List String :=
@@ -200,7 +208,12 @@ structure MSt where
   stageTime : Nat := 0
   everDown : Bool := false
   dead : Bool := false                      -- a callback panicked
-  tasks : List (Nat × Nat × Nat) := []      -- spawned in this incarnation, not resumed yet: tag, spawn time, sleep
+  tasks : List (Nat × Nat × Nat × Bool) := []   -- spawned in this incarnation, not resumed yet: task number,
+                                                -- spawn time, sleep, handle given to `current().join`
+  spawnCount : Nat := 0
+  curMust : Bool := false                   -- the task that resumed last was one of those
+  mustPanics : Nat := 0                     -- `join`ed tasks that panicked
+  mustCancelled : Nat := 0                  -- `join`ed tasks cancelled by a shutdown
   downs : List (Nat × Option Nat) := []     -- closed / open down intervals (from, to)
 
 structure Acc where
@@ -209,7 +222,7 @@ structure Acc where
   fail : Option (Nat × String) := none
 
 def isCode : OKind → Bool
-  | .msg | .start | .task | .snd | .sch | .log | .dwn | .pan | .spw | .pes => true
+  | .msg | .start | .task | .snd | .sch | .log | .dwn | .pan | .spw | .spm | .trs | .pes => true
   | _ => false
 
 /-- one observation of the implementation trace; `hasPanic`: the script contains a panic action -/
@@ -223,21 +236,21 @@ def acceptStep (sc : Script) (hasPanic : Bool) (endIdx : Nat) (acc : Acc) (io : 
   -- tasks (tokio::spawn and spawn_local alike): a task that resumes was spawned in the current
   -- incarnation (a shutdown cancels every task), and — without panics — resumes at its deadline
   let mut st := st
-  if o.kind == .spw then
-    st := { st with tasks := st.tasks ++ [(o.a.getD 0, o.time, o.b.getD 0)] }
-  if o.kind == .task then
-    let cands := st.tasks.filter (·.1 == o.a.getD 0)
-    match cands.find? (fun c => c.2.1 + c.2.2 == o.time) with
-    | some c => st := { st with tasks := st.tasks.erase c }
-    | none =>
-      match cands.head? with
-      | none => return { acc with fail := some (i, "task-of-cancelled-incarnation") }
-      | some c0 =>
-        if hasPanic || acc.ended then
-          let c := cands.foldl (fun b c => if c.2.1 + c.2.2 < b.2.1 + b.2.2 then c else b) c0
-          st := { st with tasks := st.tasks.erase c }
-        else return { acc with fail := some (i, "timer-not-at-deadline") }
-  if o.kind == .reset then st := { st with tasks := [] }
+  if o.kind == .spw || o.kind == .spm then
+    st := { st with tasks := st.tasks ++ [(st.spawnCount, o.time, o.b.getD 0, o.kind == .spm)],
+                    spawnCount := st.spawnCount + 1 }
+  if o.kind == .trs then
+    match st.tasks.find? (·.1 == o.a.getD 0) with
+    | some c =>
+      if !(hasPanic || acc.ended) && c.2.1 + c.2.2.1 != o.time then
+        return { acc with fail := some (i, "timer-not-at-deadline") }
+      if o.time < c.2.1 + c.2.2.1 then return { acc with fail := some (i, "timer-before-deadline") }
+      st := { st with tasks := st.tasks.erase c, curMust := c.2.2.2 }
+    | none => return { acc with fail := some (i, "task-of-cancelled-incarnation") }
+  -- the handles given to `current().join` outlive a shutdown: a cancelled task is reported at the end
+  if o.kind == .pan && o.a == some 1 && st.curMust then st := { st with mustPanics := st.mustPanics + 1 }
+  if o.kind == .reset then
+    st := { st with tasks := [], mustCancelled := st.mustCancelled + (st.tasks.filter (·.2.2.2)).length }
   let acc : Acc := { acc with ms := acc.ms.set! o.mod st }
   let bad (c : String) : Acc := { acc with fail := some (i, c) }
   let put (st : MSt) : Acc := { acc with ms := acc.ms.set! o.mod st }
@@ -340,7 +353,7 @@ def throughDown (sc : Script) (acc : Acc) (impl : List Obs) : Option (Nat × Str
   return none
 
 /-- the error list `run()` must return, as a sorted multiset, from the trace alone -/
-def expectedErrors (sc : Script) (impl : List Obs) : List String := Id.run do
+def expectedErrors (sc : Script) (acc : Acc) (impl : List Obs) : List String := Id.run do
   let mut out : List String := []
   let n := sc.mods.length
   for mi in [0:n] do
@@ -353,12 +366,17 @@ def expectedErrors (sc : Script) (impl : List Obs) : List String := Id.run do
     let afterEnd := mine.dropWhile (·.kind != .end_)
     let endPanic := !catches && afterEnd.any fun o => o.kind == .pan && o.a == some 0
     let joined := (mine.filter fun o => o.kind == .pan && o.a == some 1 && o.b == some 1).length
-    if !endPanic then out := out ++ List.replicate joined s!"join:{name}"
+    if !endPanic then
+      let st : MSt := (acc.ms[mi]?).getD {}
+      -- `try_join`: panicked tasks; `join`: panicked, cancelled by a shutdown, still not finished
+      out := out ++ List.replicate (joined + st.mustPanics) s!"join:{name}"
+        ++ List.replicate st.mustCancelled s!"tokio:{name}"
+        ++ List.replicate (st.tasks.filter (·.2.2.2)).length s!"unfinished:{name}"
   return sortStrings out
 
 /-- C13 as stated, where the code (and hence the faithful model) is known to deviate; judged on
     the implementation trace only.  Returns (position, clause, tag).
-    * F-C13b `task-panic-not-deactivated`: after a panic inside a `try_join`'ed task the module still
+    * F-C13b `task-panic-not-deactivated`: after a panic inside a `try_join`'ed / `join`ed task the module still
       handled a message or resumed a task during the event loop (the panic did not deactivate it);
     * F-C13c `ran-at-sim-end-after-panic`: a task of a module one of whose callbacks had panicked
       (and which was not reset / restarted since) was woken at simulation end.  (`at_sim_end` itself
@@ -368,15 +386,27 @@ def expectedErrors (sc : Script) (impl : List Obs) : List String := Id.run do
       declares panics as caught. -/
 def knownDeviation (sc : Script) (impl : List Obs) (res : List String) : Option (Nat × String × String) := Id.run do
   let mut jp : Array Bool := (sc.mods.map fun _ => false).toArray      -- a joined task panicked
+  let mut must : Array (List Nat) := (sc.mods.map fun _ => []).toArray  -- numbers of live `join`ed tasks
+  let mut count : Array Nat := (sc.mods.map fun _ => 0).toArray
+  let mut curMust : Array Bool := (sc.mods.map fun _ => false).toArray  -- the task running is one of them
   let mut dead : Array Bool := (sc.mods.map fun _ => false).toArray    -- a callback panicked
   let mut ended := false
   let mut i := 0
   for o in impl do
     if o.kind == .end_ then ended := true
+    if o.kind == .spw || o.kind == .spm then
+      if o.kind == .spm then must := must.set! o.mod (count[o.mod]?.getD 0 :: must[o.mod]?.getD [])
+      count := count.set! o.mod (count[o.mod]?.getD 0 + 1)
+    if o.kind == .trs then
+      let mine := must[o.mod]?.getD []
+      curMust := curMust.set! o.mod (mine.contains (o.a.getD 0))
+      must := must.set! o.mod (mine.erase (o.a.getD 0))
+    if o.kind == .reset then must := must.set! o.mod []
     if !ended then
       if (o.kind == .msg || o.kind == .task) && jp[o.mod]?.getD false then
         return some (i, "task-panic-not-deactivated", "F-C13b")
-      if o.kind == .pan && o.a == some 1 && o.b == some 1 then jp := jp.set! o.mod true
+      if o.kind == .pan && o.a == some 1 && (o.b == some 1 || curMust[o.mod]?.getD false) then
+        jp := jp.set! o.mod true
       if o.kind == .pan && o.a == some 0 then dead := dead.set! o.mod true
       if o.kind == .reset then
         jp := jp.set! o.mod false
@@ -445,13 +475,15 @@ def runCase (twice : Bool) (c : Case) : String := Id.run do
     return s!"fail {id} op={k} kind=reject clause={clause} at=[{showObs sc impl[k]?}] prev=[{showObs sc (if k = 0 then none else impl[k-1]?)}]"
   | none => pure ()
   -- the harness-only lines have been judged; the model does not produce them
-  let modelLine (o : Obs) : Bool := o.kind != .spw && o.kind != .pes && o.kind != .pee
+  let modelLine (o : Obs) : Bool :=
+    o.kind != .spw && o.kind != .spm && o.kind != .trs && o.kind != .pes && o.kind != .pee
+  let implAll := impl
   impl := impl.filter modelLine
   impl2 := impl2.filter modelLine
   match throughDown sc acc impl with
   | some (k, clause) => return s!"fail {id} op={k} kind=reject clause={clause} at=[{showObs sc impl[k]?}]"
   | none => pure ()
-  let exp := expectedErrors sc impl
+  let exp := expectedErrors sc acc impl
   let got := sortStrings (res.drop 1)
   if exp != got then
     return s!"fail {id} op={impl.length} kind=reject clause=errors-eq-panicked-paths spec=[{" ".intercalate exp}] impl=[{" ".intercalate got}]"
@@ -477,9 +509,10 @@ def runCase (twice : Bool) (c : Case) : String := Id.run do
     if resOf sc s.errors != res2 then
       return s!"fail {id} op={impl.length} kind=diverge run=2 what=errors model=[{" ".intercalate (resOf sc s.errors)}] impl=[{" ".intercalate res2}]"
   -- C13 as stated: the recorded deviations (only now that model = implementation on everything)
-  match knownDeviation sc impl res with
+  -- (a kind of its own: a violation of another clause must not shrink into one of these)
+  match knownDeviation sc implAll res with
   | some (k, clause, tag) =>
-    return s!"fail {id} op={k} kind=reject clause={clause} tag={tag} at=[{showObs sc impl[k]?}] res=[{" ".intercalate res}]"
+    return s!"fail {id} op={k} kind=deviation clause={clause} tag={tag} at=[{showObs sc implAll[k]?}] res=[{" ".intercalate res}]"
   | none => pure ()
   -- evidence
   let mainLoop := impl.takeWhile (·.kind != .end_)
